@@ -100,8 +100,8 @@ Ltac inst :=
 Ltac fin :=
   try discriminate; try congruence; try lia; try tauto;
   try (unfold batch in *; simpl in *; rewrite ?in_map_fst_snoc, ?in_snoc in *);
-  try solve [eauto 6 using snoc_not_nil, NoDup_map_fst_snoc, in_fst
-            | intuition (try congruence; try lia; eauto 6 using in_fst)].
+  try solve [eauto 4 using snoc_not_nil, NoDup_map_fst_snoc, in_fst
+            | intuition (try congruence; try lia; eauto 4 using in_fst)].
 
 Ltac solveS t :=
   intros;
